@@ -524,7 +524,7 @@ def units(tier, seed):
     if q:
         orders |= set(range(300, 4096, 397))
     orders = sorted(orders)
-    out = [("interleaved", {"stride": 1, "max": 3000 if q else 30000})]
+    out = [("interleaved", {"stride": 1, "max": 3000 if q else 30000}), ("seed-history", {})]
     ns = 14
     for i in range(ns):
         out.append(("randrange-enum", {"orders": orders[i::ns]}))
@@ -565,7 +565,52 @@ def _interleaved_jobs():
     return {"a": a, "b": b}
 
 
+def seed_history(ctx):
+    """the seed helpers are functions of (seed, order): the values computed in this process after a long and
+    mixed history must equal the ones a fresh interpreter computes in the opposite order"""
+    import subprocess
+    import sys
+    import json as _json
+    names = ["NIST256p", "SECP256k1", "BRAINPOOLP256r1", "BRAINPOOLP224r1", "NIST224p", "NIST192p", "BRAINPOOLP192r1", "SECP160r1",
+             "BRAINPOOLP160r1"]
+    orders = [256, 300, 257, 255, 511, 512, 513, 1000, 65536, 65537, 70000, 2 ** 64, 2 ** 64 - 59] + [gen.named(nm).n for nm in names]
+    seeds = [b"", b"a", b"seed-1", b"\xff" * 40]
+    funcs = ["randrange_from_seed__trytryagain", "randrange_from_seed__overshoot_modulo", "randrange_from_seed__truncate_bytes",
+             "randrange_from_seed__truncate_bits"]
+    here = {}
+    for fn in funcs:
+        for o in orders:
+            for sd in seeds:
+                ctx.ev()
+                try:
+                    here[(fn, o, sd.hex())] = int(getattr(U, fn)(sd, o))
+                except Exception as e:
+                    here[(fn, o, sd.hex())] = "EXC " + type(e).__name__
+    prog = ("import sys, json; sys.path.insert(0, %r); from ecdsa import util as U\n"
+            "funcs=%r; orders=%r; seeds=%r; out=[]\n"
+            "for fn in reversed(funcs):\n"
+            "  for o in reversed(orders):\n"
+            "    for sd in reversed(seeds):\n"
+            "      try: v=int(getattr(U, fn)(bytes.fromhex(sd), o))\n"
+            "      except Exception as e: v='EXC '+type(e).__name__\n"
+            "      out.append([fn, o, sd, v])\n"
+            "print(json.dumps(out))\n") % (sys.path[0] if sys.path[0].endswith("src") else [p for p in sys.path if p.endswith("/src")][0],
+                                         funcs, orders, [s.hex() for s in seeds])
+    r = subprocess.run([sys.executable, "-c", prog], capture_output=True, text=True, timeout=300)
+    if r.returncode != 0:
+        raise RuntimeError("fresh interpreter failed: " + r.stderr[-500:])
+    for fn, o, sd, v in _json.loads(r.stdout.strip().splitlines()[-1]):
+        if here[(fn, o, sd)] != v:
+            ctx.fail("seed-history/%s/depends-on-earlier-calls" % fn, {"kind": "seed-history", "fn": fn, "order": o, "seed": sd},
+                     "after this process's history: %r, in a fresh interpreter (opposite order): %r" % (here[(fn, o, sd)], v))
+        ctx.nontrivial_enum()
+    ctx.sample({"kind": "seed-history", "orders": len(orders), "seeds": len(seeds), "helpers": funcs})
+
+
 def run_unit(ctx, name, **kw):
+    if name == "seed-history":
+        seed_history(ctx)
+        return
     if name == "interleaved":
         from .purity import interleaved_pure
         interleaved_pure(ctx, "util", [U], _interleaved_jobs(), kw["stride"], max_schedules=kw["max"])
@@ -631,6 +676,9 @@ def replay(ctx, case):
     if k == "interleaved":
         from .purity import interleaved_pure
         interleaved_pure(ctx, "util", [U], _interleaved_jobs(), 1, max_schedules=3000)
+        return
+    if k == "seed-history":
+        seed_history(ctx)
         return
     if k == "randrange-enum":
         check_randrange_order(ctx, case["n"])
